@@ -476,7 +476,7 @@ impl TableRowObject {
         let first = i == 0;
         let last = i == (len - 1);
         let col_first = col == 0;
-        let col_last = col == (cols - 1) || last;
+        let col_last = (col + 1) == cols || last;
         Self {
             length: len,
             index0: i,
